@@ -202,9 +202,21 @@ func (c *Ctx) stackEffect(ia *interpAnchors, op string, f *ssa.Function) {
 		c.controlEffect(ia, op, f, fi, stackField, base, entry)
 		return
 	}
+	if op == "where" {
+		// the operand stack after `where` is decided as a value on the evaluator, over every
+		// dictionary stack of 1..4 dictionaries × which of them define the key (ext_f.go): it must be
+		// [… dict true] with the topmost dictionary that defines the key (+1), or [… false] (0).
+		// The walk may be an index loop or an iterator whose body is a closure; the epoch
+		// relations below are consulted only if the evaluation stops.
+		if bad, cells, decided := c.lookupByEvaluation(ia, f, true); decided {
+			c.check(len(bad) == 0, "OP-STACKEFFECT", fname, op+": net effect on the operand stack", f.Pos(), fmt.Sprintf("0|+1: %d cells evaluated", cells),
+				"where does not leave the operand stack the PLRM prescribes: "+joinMax(bad, 3))
+			return
+		}
+	}
 	for _, r := range returns(f) {
 		ok := true
-		for _, v := range retValues(r, 0) {
+		for _, v := range retValuesAt(r, 0) {
 			// nil, or the end-of-file marker that closefile uses to end the run
 			if !isNilConst(v) && !isGlobalLoad(v, "io", "EOF") {
 				ok = false
@@ -337,7 +349,7 @@ func (c *Ctx) errorNames(ia *interpAnchors, reg *registry) {
 		f := e.fn
 		fname := c.fname(f)
 		for _, b := range f.Blocks {
-			name := c.blockReturnsErr(b)
+			name := c.errExitName(b)
 			if name == "" {
 				continue
 			}
@@ -364,6 +376,8 @@ func (c *Ctx) errorNames(ia *interpAnchors, reg *registry) {
 			}
 		}
 	}
+	// the two look-ups of findresource have an error name each (decided by evaluation: ext_w1.go)
+	c.findresourceRule(reg)
 	c.floor("OP-ERRNAME", 120)
 }
 
@@ -838,6 +852,18 @@ func (c *Ctx) operandRegions(ia *interpAnchors, reg *registry) {
 	// sizes of array/string/dict and the count of repeat: lower bound 0 (upper bounds are C11's L6)
 	for _, op := range []string{"array", "string", "dict", "repeat"} {
 		f := reg.op("systemdict", op)
+		if op != "repeat" {
+			// decided on the evaluator (ext_w1.go): the operator is evaluated on sizes -1, 0, 1, 7 and
+			// the largest integer, helpers that hold the tests evaluated in place; the facts at the
+			// normal exits are consulted only if the evaluation stops
+			if bad, decided, why := c.sizeOperandByEvaluation(f, op); decided {
+				c.check(len(bad) == 0, "OP-REGION", c.fname(f), op+": count/size operand accepted iff >= 0 (up to the limit)", f.Pos(), "evaluated on -1, 0, 1, 7, maxint",
+					op+": "+joinMax(bad, 3))
+				continue
+			} else {
+				c.note("OP-REGION: the evaluation of %s stops (%s); deciding on the facts at its normal exits", op, why)
+			}
+		}
 		rc := &regionCtx{c: c, ia: ia, f: f, fi: newFuncInfo(f)}
 		depth := int64(1)
 		if op == "repeat" {
